@@ -666,76 +666,8 @@ func streamCli(r *rng, n int, pfx string) {
 				}
 			}
 		}
-		cmd := exec.Command(bin, args...)
-		cmd.Stdin = bytes.NewReader(stdin)
-		var so, se bytes.Buffer
-		cmd.Stdout, cmd.Stderr = &so, &se
-		err := cmd.Run()
-		exit := 0
-		if err != nil {
-			exit = 1
-			if ee, ok := err.(*exec.ExitError); ok {
-				exit = ee.ExitCode()
-			}
-		}
-		// the fold of the library's own Apply
-		libOut, libExit := []byte(nil), 0
-		if missing {
-			libExit = 1
-		} else {
-			mdoc := stdin
-			if pkg == "v5" {
-				var ps []jsonpatch.Patch
-				for _, t := range texts {
-					p, err := jsonpatch.DecodePatch(t)
-					if err != nil {
-						libExit = 1
-						break
-					}
-					ps = append(ps, p)
-				}
-				if libExit == 0 {
-					for _, p := range ps {
-						mdoc, err = p.Apply(mdoc)
-						if err != nil {
-							libExit = 1
-							break
-						}
-					}
-				}
-			} else {
-				var ps []legacy.Patch
-				for _, t := range texts {
-					p, err := legacy.DecodePatch(t)
-					if err != nil {
-						libExit = 1
-						break
-					}
-					ps = append(ps, p)
-				}
-				if libExit == 0 {
-					res := guarded(func() string {
-						for _, p := range ps {
-							mdoc, err = p.Apply(mdoc)
-							if err != nil {
-								return "err"
-							}
-						}
-						return "ok"
-					})
-					if res != "ok" {
-						libExit = 1
-					}
-				}
-			}
-			if libExit == 0 {
-				libOut = mdoc
-			}
-		}
-		toks := []string{"CLI", fmt.Sprintf("%s%d", pfx, i), pkg, hx(stdin), strconv.Itoa(len(fields))}
-		toks = append(toks, fields...)
-		toks = append(toks, "=>", hx(so.Bytes()), strconv.Itoa(exit), hx(libOut), strconv.Itoa(libExit), strconv.Itoa(se.Len()))
-		emit("%s", strings.Join(toks, " "))
+		emitCli(fmt.Sprintf("%s%d", pfx, i), pkg, bin, stdin, args, fields, texts, missing)
+
 	}
 }
 
@@ -810,4 +742,79 @@ func normBF(b []byte) []byte {
 		out = append(out, b[i])
 	}
 	return out
+}
+
+// run the command on the prepared arguments, compute the fold of the library's own Apply
+// in-process, and print the CLI line
+func emitCli(id, pkg, bin string, stdin []byte, args, fields []string, texts [][]byte, missing bool) {
+	cmd := exec.Command(bin, args...)
+	cmd.Stdin = bytes.NewReader(stdin)
+	var so, se bytes.Buffer
+	cmd.Stdout, cmd.Stderr = &so, &se
+	err := cmd.Run()
+	exit := 0
+	if err != nil {
+		exit = 1
+		if ee, ok := err.(*exec.ExitError); ok {
+		exit = ee.ExitCode()
+		}
+	}
+	// the fold of the library's own Apply
+	libOut, libExit := []byte(nil), 0
+	if missing {
+		libExit = 1
+	} else {
+		mdoc := stdin
+		if pkg == "v5" {
+		var ps []jsonpatch.Patch
+		for _, t := range texts {
+			p, err := jsonpatch.DecodePatch(t)
+			if err != nil {
+			libExit = 1
+			break
+			}
+			ps = append(ps, p)
+		}
+		if libExit == 0 {
+			for _, p := range ps {
+			mdoc, err = p.Apply(mdoc)
+			if err != nil {
+				libExit = 1
+				break
+			}
+			}
+		}
+		} else {
+		var ps []legacy.Patch
+		for _, t := range texts {
+			p, err := legacy.DecodePatch(t)
+			if err != nil {
+			libExit = 1
+			break
+			}
+			ps = append(ps, p)
+		}
+		if libExit == 0 {
+			res := guarded(func() string {
+			for _, p := range ps {
+				mdoc, err = p.Apply(mdoc)
+				if err != nil {
+				return "err"
+				}
+			}
+			return "ok"
+			})
+			if res != "ok" {
+			libExit = 1
+			}
+		}
+		}
+		if libExit == 0 {
+		libOut = mdoc
+		}
+	}
+	toks := []string{"CLI", id, pkg, hx(stdin), strconv.Itoa(len(fields))}
+	toks = append(toks, fields...)
+	toks = append(toks, "=>", hx(so.Bytes()), strconv.Itoa(exit), hx(libOut), strconv.Itoa(libExit), strconv.Itoa(se.Len()))
+	emit("%s", strings.Join(toks, " "))
 }
